@@ -56,3 +56,5 @@ package app
 //@ func (p *SocketAppProxyServer) SubmitTx(tx []byte, ack *bool) error
 //@   requires p != nil && ack != nil
 //@   ensures[ack] ret0 == nil && *ack
+//@   ensures[ack-after-handover] *ack ==> __called("chan<-")
+//@   call chan<- assert[content] __samebytes(__argT[[]byte](0), tx)
